@@ -34,10 +34,12 @@ PROPS = {
     ),
     "C02": dict(
         module="Anonymongo.Props.C02",
-        theorems=["Anonymongo.C02_walk", "Anonymongo.C02_command", "Anonymongo.Ctx.run_rel", "Anonymongo.Ctx.run_scalar"],
-        corr=["line", "sweep", "arb", "misc"],
-        statement="placeholder mode, full-redaction mode (with or without --redactFieldNames / --redactNamespaces): from every walker state, two trees with the same keys, the same array lengths, equal kept parts and - at every leaf the walker hands to redactScalarValue under a non-exempt key path - leaves of the same lexical class (value under $date/$oid/$binary.base64, e-mail-shaped string, ordinary string, any two numbers with --redactNumbers, any two booleans with --redactBooleans) are redacted to the SAME tree; lifted to whole command documents (all zones)",
-        partial="selective mode (--redactFieldsRegexp) is outside the theorem (the walker's states then depend on '$field' siblings and search path arguments): covered by the pair oracle only. Which positions are sensitive is C01. Byte identity of the printed lines follows because printing is a function of the tree (model) and is corresponded.",
+        theorems=["Anonymongo.C02_walk", "Anonymongo.C02_command", "Anonymongo.Ctx.run_rel", "Anonymongo.Ctx.run_scalar",
+                  "Anonymongo.C02_walk_sel", "Anonymongo.Ctx.run_rel_sel", "Anonymongo.Gen_tables_nodup"],
+        extra_modules=["Anonymongo.Props.C02b"],
+        corr=["line", "sweep", "arb", "misc", "stream"],
+        statement="placeholder mode, full-redaction mode (with or without --redactFieldNames / --redactNamespaces): from every walker state, two trees with the same keys, the same array lengths, equal kept parts and - at every leaf the walker hands to redactScalarValue under a non-exempt key path - leaves of the same lexical class (value under $date/$oid/$binary.base64, e-mail-shaped string, ordinary string, any two numbers with --redactNumbers, any two booleans with --redactBooleans) are redacted to the SAME tree; lifted to whole command documents (all zones); SELECTIVE MODE TOO (C02_walk_sel, Lemmas/RelSel run_rel_sel): for ANY predicate given as --redactFieldsRegexp the same holds - the only places where the walker's states depend on values ('$field' siblings in an array, path arguments of a search operator) are values the walker never hands to redactScalarValue, so related inputs agree on them and walk through the same states; needs the tables to hold no key twice (Gen_tables_nodup, kernel-decided over the regenerated tables, carried to every table getOp answers with by the provenance lemma)",
+        partial="stated with field-name redaction off (keys unchanged); the command-level lifting (C02_command) is proved for full-redaction mode, the walker-level theorem for every mode. Which positions are sensitive is C01. Byte identity of the printed lines follows because printing is a function of the tree (model) and is corresponded.",
     ),
     "C19": dict(
         module="Anonymongo.Props.C19",
